@@ -18,6 +18,9 @@ Go `uint64` are `Nat` with the wrap made explicit (`% two64`) where the code can
 The Go map `Reveals` is an association list (keys distinct: invariant `Nodup`, Props.C39.createProof_keys_nodup);
 the verifier walks it in list order (Go: random order — only WHICH error is reported first depends on it).
 
+`validateStateProof` / `acceptableWeight` model stateproof/verify/stateproof.go (ValidateStateProof,
+calculateAcceptableStateProofWeight) with the consensus parameters as fields of the context.
+
 Not modelled: `cachedProof` (CreateProof on a prover with a cached proof returns it unchanged; `Add` clears it),
 msgpack encodings, `LnIntApproximation` (float64; `lnProvenWeight` is an input), the Merkle-signature internals
 (C36) and the merklearray internals (C37).
@@ -344,6 +347,61 @@ def createProof (E : Env S RS PS RP PP) (b : Prover S) : Except PErr (StateProof
 /-- the verifier a relay builds for this prover's statement (MkVerifier with the same proven weight) -/
 def verifierOf (E : Env S RS PS RP PP) (b : Prover S) : Verifier RP :=
   ⟨b.strengthTarget, b.lnProvenWeight, E.vcP.commit b.participants⟩
+
+/-! ### stateproof/verify/stateproof.go: the ledger context -/
+
+/-- basics.Muldiv(a, b, c) = ⌊a·b/c⌋; `none` = overflow flag (c = 0, or the quotient does not fit 64 bits: `c <= hi`) -/
+def muldiv (a b c : Nat) : Option Nat :=
+  if c = 0 then none else if a * b / c ≥ two64 then none else some (a * b / c)
+
+/-- calculateAcceptableStateProofWeight: 100% of the online weight until half an interval after the attested round,
+then a linear ramp down to the proven weight `total·threshold/2^32` over the next half interval; 0 on (impossible)
+overflows.  `SubSaturate` is truncated subtraction. -/
+def acceptableWeight (total interval threshold lastAttested firstValid : Nat) : Nat :=
+  let half := interval / 2
+  if firstValid - lastAttested = 0 then total else
+  if firstValid - lastAttested - half = 0 then total else
+  match muldiv total threshold (2 ^ 32) with
+  | none => 0
+  | some pw =>
+    if pw > total then 0 else
+    if firstValid - lastAttested - half ≥ half then pw else
+    match muldiv (total - pw) (half - (firstValid - lastAttested - half)) half with
+    | none => 0
+    | some scaled => if pw + scaled ≥ two64 then 0 else pw + scaled
+
+/-- ledgercore.StateProofVerificationContext plus the consensus parameters of its `Version` -/
+structure LedgerCtx (RP : Type) where
+  lastAttestedRound : Nat
+  votersCommitment : RP
+  onlineTotalWeight : Nat
+  interval : Nat           -- StateProofInterval
+  weightThreshold : Nat    -- StateProofWeightThreshold (a fraction of 2^32)
+  strengthTarget : Nat     -- StateProofStrengthTarget
+
+inductive LErr where
+  | notEnabled             -- errStateProofNotEnabled
+  | notMultiple            -- errNotAtRightMultiple
+  | insufficientWeight     -- errInsufficientWeight
+  | overflow               -- "overflow computing provenWeight"
+  | lnZero                 -- MkVerifier: ErrIllegalInputForLnApprox
+  | crypto (e : VErr)      -- errStateProofCrypto
+  deriving DecidableEq, Repr
+
+/-- ValidateStateProof; `ln` is LnIntApproximation (float64, not modelled) -/
+def validateStateProof (E : Env S RS PS RP PP) (ln : Nat → Nat) (ctx : LedgerCtx RP) (s : StateProof S RS PS PP)
+    (atRound msgHash : Nat) : Except LErr Unit :=
+  if ctx.interval = 0 then .error .notEnabled else
+  if ctx.lastAttestedRound % ctx.interval ≠ 0 then .error .notMultiple else
+  if s.signedWeight < acceptableWeight ctx.onlineTotalWeight ctx.interval ctx.weightThreshold ctx.lastAttestedRound atRound
+  then .error .insufficientWeight else
+  match muldiv ctx.onlineTotalWeight ctx.weightThreshold (2 ^ 32) with
+  | none => .error .overflow
+  | some pw =>
+    if pw = 0 then .error .lnZero else
+    match verify E ⟨ctx.strengthTarget, ln pw, ctx.votersCommitment⟩ ctx.lastAttestedRound msgHash s with
+    | .error e => .error (.crypto e)
+    | .ok _ => .ok ()
 
 /-! ### ideal primitives (used by the driver and by the non-vacuity examples)
 
